@@ -74,8 +74,16 @@ func computeClosureFuncs(cx *Ctx, hm interface{}, compute *ssa.Function) map[*ss
 		allInstrs(fn, func(in ssa.Instruction) {
 			if compute != nil && isCallTo(in, compute) && sameField(recvField(in), hmf) {
 				a := callArgs(in)
-				if cl := closureOf(a[len(a)-1]); cl != nil {
+				if bm := boundMethod(a[len(a)-1]); bm != nil {
+					if !addressTakenElsewhere(cx, bm, in) {
+						// a named method handed over as the computation (cm.remap): it runs only as that callback
+						roots[origin(bm)] = true
+					}
+				} else if cl := closureOf(a[len(a)-1]); cl != nil {
 					roots[cl] = true
+				} else if false {
+					// a named method handed over as the computation (cm.remap): it runs only as that callback
+					roots[origin(bm)] = true
 				}
 			}
 		})
@@ -268,4 +276,31 @@ func mayHeldRegion(lock ssa.Instruction, mu interface{}) []ssa.Instruction {
 	_ = fn
 	walk(start.B, start.I+1)
 	return out
+}
+
+// addressTakenElsewhere: the method is used as a value (or called directly) anywhere but as the argument of `site`.
+func addressTakenElsewhere(cx *Ctx, m *ssa.Function, site ssa.Instruction) bool {
+	other := false
+	for _, f := range cx.P.ModuleFuncs() {
+		allInstrs(f, func(in ssa.Instruction) {
+			if isCallTo(in, m) {
+				other = true
+			}
+			if mc, ok := in.(*ssa.MakeClosure); ok {
+				if bm := boundMethod(mc); bm != nil && origin(bm) == origin(m) {
+					// is this closure the one passed at site?
+					used := false
+					for _, a := range callArgs(site) {
+						if a == ssa.Value(mc) {
+							used = true
+						}
+					}
+					if !used {
+						other = true
+					}
+				}
+			}
+		})
+	}
+	return other
 }
